@@ -20,7 +20,8 @@ theorem alnum_eq (b : Nat) : alnum b = isAlnum b := by
 
 theorem mediaChar_eq (b : Nat) : mediaChar b = mediaByteOk b := by
   rw [Bool.eq_iff_iff]
-  simp [mediaChar, mediaByteOk, alnum_eq, oneOf, bs]
+  simp [mediaChar, mediaByteOk, alnum, isAlnum, digit, isDigit, lower, isLower, upper, isUpper,
+    oneOf, bs]
   omega
 
 theorem all_congr {p q : Nat → Bool} (h : ∀ b, p b = q b) (s : Str) : s.all p = s.all q := by
@@ -29,6 +30,16 @@ theorem all_congr {p q : Nat → Bool} (h : ∀ b, p b = q b) (s : Str) : s.all 
 theorem nonEmptyAll_iff {p : Nat → Bool} {s : Str} :
     nonEmptyAll p s = true ↔ s ≠ [] ∧ ∀ b ∈ s, p b = true := by
   cases s <;> simp [nonEmptyAll]
+
+theorem eq_dropLast_append {r : List Nat} {a : Nat} (h : r.getLast? = some a) :
+    r = r.dropLast ++ [a] := by
+  have hne : r ≠ [] := by intro e; simp [e] at h
+  have h2 := List.dropLast_concat_getLast hne
+  have h3 : r.getLast hne = a := by
+    rw [List.getLast?_eq_some_getLast hne] at h
+    exact Option.some.inj h
+  rw [h3] at h2
+  exact h2.symm
 
 theorem bracketed_iff {q : Str → Bool} {h : Str} :
     bracketed q h = true ↔ ∃ c, h = 91 :: (c ++ [93]) ∧ q c = true := by
@@ -39,8 +50,7 @@ theorem bracketed_iff {q : Str → Bool} {h : Str} :
     · rename_i r
       simp only [Bool.and_eq_true, decide_eq_true_eq] at hb
       refine ⟨r.dropLast, ?_, hb.2⟩
-      have := List.dropLast_append_getLast? 93 hb.1
-      rw [this]
+      exact congrArg (91 :: ·) (eq_dropLast_append hb.1)
     · simp at hb
   · rintro ⟨c, rfl, hq⟩
     simp [bracketed, hq]
@@ -99,32 +109,47 @@ theorem serverOk_of_gram {x : Ext} {s : Str} (hg : gramServerName x.isIpv6 s = t
       rw [hp] at this
       exact absurd this (by simp)
 
-/-- Bytes of a server name in the grammar: none is `/`. -/
-theorem gramServerName_no_slash {v6 : Str → Bool} {s : Str} (hg : gramServerName v6 s = true) :
-    47 ∉ s := by
-  have host_no : ∀ h, gramHost v6 h = true → 47 ∉ h := by
+/-- Bytes of a server name in the grammar. -/
+theorem gramServerName_byte {v6 : Str → Bool} {s : Str} (hg : gramServerName v6 s = true)
+    {c : Nat} (hm : c ∈ s) :
+    dnsChar c = true ∨ ipv6Char c = true ∨ c = 91 ∨ c = 93 ∨ c = 58 := by
+  have host_b : ∀ h, gramHost v6 h = true → c ∈ h →
+      dnsChar c = true ∨ ipv6Char c = true ∨ c = 91 ∨ c = 93 ∨ c = 58 := by
     intro h hh hm
     simp only [gramHost, Bool.or_eq_true, Bool.and_eq_true] at hh
     rcases hh with ⟨hn, _⟩ | hb
-    · have := (nonEmptyAll_iff.1 hn).2 47 hm
-      simp [dnsChar, alnum, digit, lower, upper, oneOf, bs] at this
-    · obtain ⟨c, rfl, hq⟩ := bracketed_iff.1 hb
+    · exact .inl ((nonEmptyAll_iff.1 hn).2 c hm)
+    · obtain ⟨r, rfl, hq⟩ := bracketed_iff.1 hb
       simp only [Bool.and_eq_true, List.all_eq_true] at hq
-      simp at hm
-      have := hq.1.2 47 hm
-      simp [ipv6Char, digit, oneOf, bs] at this
+      simp only [List.mem_cons, List.mem_append, List.not_mem_nil, or_false] at hm
+      rcases hm with rfl | hm | rfl
+      · exact .inr (.inr (.inl rfl))
+      · exact .inr (.inl (hq.1.2 c hm))
+      · exact .inr (.inr (.inr (.inl rfl)))
   simp only [gramServerName, withPort, Bool.or_eq_true] at hg
   rcases hg with hh | hc
-  · exact host_no s hh
+  · exact host_b s hh hm
   · obtain ⟨h, p, rfl, hh, hport⟩ := cutAt_iff.1 hc
-    intro hm
     simp only [List.mem_append, List.mem_cons] at hm
-    rcases hm with hm | hm | hm
-    · exact host_no h hh hm
-    · omega
+    rcases hm with hm | rfl | hm
+    · exact host_b h hh hm
+    · exact .inr (.inr (.inr (.inr rfl)))
     · simp only [isPort, Bool.and_eq_true, List.all_eq_true] at hport
-      have := hport.2 47 hm
-      simp [digit] at this
+      have := hport.2 c hm
+      left
+      simp only [dnsChar, alnum, this, Bool.true_or]
+
+theorem gramServerName_no_slash {v6 : Str → Bool} {s : Str} (hg : gramServerName v6 s = true) :
+    47 ∉ s := by
+  intro hm
+  have := gramServerName_byte hg hm
+  simp [dnsChar, ipv6Char, alnum, digit, lower, upper, oneOf, bs] at this
+
+theorem gramServerName_no_nul {v6 : Str → Bool} {s : Str} (hg : gramServerName v6 s = true) :
+    0 ∉ s := by
+  intro hm
+  have := gramServerName_byte hg hm
+  simp [dnsChar, ipv6Char, alnum, digit, lower, upper, oneOf, bs] at this
 
 /-! ### Sigil identifiers -/
 
